@@ -469,6 +469,11 @@ def available_features(m, st):
     for k, v in st.env.items():
         if k.startswith("cpu:") and v:
             have.add(k[4:].replace("sse4_", "sse4."))
+    # features of the functions we are inside: entering them was itself obliged (or is the
+    # stated precondition of the function under analysis)
+    for fr in st.frames:
+        for f in m.p.insts[fr.inst].get("target_features") or ():
+            have.add(f)
     return closure_features(have)
 
 
